@@ -338,6 +338,7 @@ func (d *Driver) workerLoop(w int, chunks chan chunk) {
 					time.Sleep(500 * time.Millisecond)
 					dump := tailFile(wp.errPath, 4000)
 					c := d.Prop.Case(max(cur, a))
+					c.Idx = max(cur, a)
 					p := d.writeReplay(Violation{Idx: cur, Site: "watchdog", Msg: "wall-clock watchdog fired\n" + dump, Case: c}, "watchdog")
 					d.Inconclusive(fmt.Sprintf("wall-clock watchdog (%s) fired on case %d (replay %s)", d.CaseTO, cur, p))
 					kill()
@@ -367,6 +368,7 @@ func (d *Driver) workerLoop(w int, chunks chan chunk) {
 				return
 			}
 			c := d.Prop.Case(cur)
+			c.Idx = cur
 			site := siteFromCrash(stderr)
 			d.AddViolation(Violation{Idx: cur, Site: site, Msg: "worker process died on this case:\n" + firstLines(stderr, 40), Case: c})
 			d.AddAgg(&Agg{N: 1, Cover: map[string]int{"#crashed-workers": 1}})
